@@ -31,9 +31,14 @@ def stale(I, O, exists, mtime, changed):
 
 
 def search(budget=200000):
+    import os
     import gwf.scheduling as S
     from gwf.core import Target
     tried = 0
+    thorough = os.environ.get("VERIF_TIER") == "thorough"
+    times = [1.0, 2.0, 3.0] if thorough else [1.0, 2.0]
+    if thorough:
+        budget = 3000000
     for ni, no in itertools.product(range(3), range(3)):
         for names in itertools.permutations(NAMES, ni + no):
             I, O = list(names[:ni]), list(names[ni:])
@@ -46,7 +51,7 @@ def search(budget=200000):
                     return {"inputs": ins, "outputs": outs, "problem": f"Target() raised {type(e).__name__}: {e}"}, tried
                 PI, PO = ["/w/" + p for p in I], ["/w/" + p for p in O]
                 for ex in itertools.product([True, False], repeat=len(O)):
-                    for mt in itertools.product([1.0, 2.0], repeat=len(I) + len(O)):
+                    for mt in itertools.product(times, repeat=len(I) + len(O)):
                         for changed in (False, True):
                             tried += 1
                             if tried > budget:
